@@ -188,6 +188,6 @@ func realRun(bin string, image, input []byte) ([]byte, int, error) {
 	case <-time.After(30 * time.Second):
 		cmd.Process.Kill()
 		<-done
-		return nil, 0, fmt.Errorf("child did not exit within 30 s; stdout tail %q", tailStr(so.String(), 300))
+		return so.Bytes(), 0, fmt.Errorf("child did not exit within 30 s; stdout tail %q", tailStr(so.String(), 300))
 	}
 }
